@@ -13,7 +13,8 @@
    `wf_b` on the model state after every call of every generated history -- not by a theorem. *)
 From Coq Require Import ZArith List Bool PArith FMapPositive.
 From XV Require Import C01.Model C01.Spec C01.ProofsWfb C01.ProofsFrame C01.ProofsUses C01.ProofsOperands
-  C01.ProofsRauw C01.ProofsSetOperands C01.ProofsDll C01.ProofsOps C01.ProofsBlocks C01.ProofsHistory C01.ProofsDemo.
+  C01.ProofsRauw C01.ProofsSetOperands C01.ProofsSetSuccessors C01.ProofsDll C01.ProofsOps C01.ProofsBlocks
+  C01.ProofsOpRegions C01.ProofsMove C01.ProofsOpLists C01.ProofsBlockLists C01.ProofsArgs C01.ProofsHistory C01.ProofsDemo.
 Import ListNotations.
 Local Open Scope Z_scope.
 
@@ -127,6 +128,109 @@ Theorem C01_insert_block_before_single_preserves : forall s s' r b target res,
   insert_block_before r [b] target s = (s', Ok res) -> WF s'.
 Proof. exact insert_block_before1_WF. Qed.
 Print Assumptions C01_insert_block_before_single_preserves.
+
+Theorem C01_set_successors_preserves : forall s s' o new r,
+  WF s -> op_live s o -> set_successors o new s = (s', Ok r) -> WF s'.
+Proof. exact set_successors_WF. Qed.
+Print Assumptions C01_set_successors_preserves.
+
+Theorem C01_add_region_preserves : forall s s' o r res,
+  WF s -> add_region o r s = (s', Ok res) -> WF s'.
+Proof. exact add_region_WF_gen. Qed.
+Print Assumptions C01_add_region_preserves.
+
+Theorem C01_detach_region_preserves : forall s s' o r res,
+  WF s -> detach_region o r s = (s', Ok res) -> WF s'.
+Proof. exact detach_region_WF_gen. Qed.
+Print Assumptions C01_detach_region_preserves.
+
+Theorem C01_detach_region_idx_preserves : forall s s' o idx res,
+  WF s -> op_live s o -> detach_region_idx o idx s = (s', Ok res) -> WF s'.
+Proof. exact detach_region_idx_WF. Qed.
+Print Assumptions C01_detach_region_idx_preserves.
+
+Theorem C01_move_blocks_preserves : forall s s' self region r,
+  WF s -> reg_live s self -> reg_live s region -> move_blocks self region s = (s', Ok r) -> WF s'.
+Proof. exact move_blocks_WF. Qed.
+Print Assumptions C01_move_blocks_preserves.
+
+Theorem C01_move_blocks_before_preserves : forall s s' self target region tx r,
+  WF s -> reg_live s self ->
+  PM.find target (s_blocks s) = Some tx -> b_erased tx = false -> b_parent tx = Some region -> reg_live s region ->
+  move_blocks_before self target s = (s', Ok r) -> WF s'.
+Proof. exact move_blocks_before_WF. Qed.
+Print Assumptions C01_move_blocks_before_preserves.
+
+Theorem C01_add_ops_preserves : forall ops s s' b r,
+  WF s -> blk_live s b -> (forall o, In o ops -> op_live s o) -> add_ops b ops s = (s', Ok r) -> WF s'.
+Proof. exact add_ops_WF. Qed.
+Print Assumptions C01_add_ops_preserves.
+
+Theorem C01_insert_ops_before_preserves : forall ops s s' b ex r,
+  WF s -> blk_live s b -> op_live s ex -> insert_ops_before b ops ex s = (s', Ok r) -> WF s'.
+Proof. exact insert_ops_before_WF. Qed.
+Print Assumptions C01_insert_ops_before_preserves.
+
+Theorem C01_insert_ops_after_preserves : forall ops s s' b ex r,
+  WF s -> blk_live s b -> op_live s ex -> (forall o, In o ops -> op_live s o) ->
+  insert_ops_after b ops ex s = (s', Ok r) -> WF s'.
+Proof. exact insert_ops_after_WF. Qed.
+Print Assumptions C01_insert_ops_after_preserves.
+
+Theorem C01_rw_insert_op_preserves : forall ops s s' b ib r,
+  WF s -> blk_live s b -> (forall o, In o ops -> op_live s o) -> (forall e, ib = Some e -> op_live s e) ->
+  rw_insert_op ops b ib s = (s', Ok r) -> WF s'.
+Proof. exact rw_insert_op_WF. Qed.
+Print Assumptions C01_rw_insert_op_preserves.
+
+(* block lists of any length *)
+Theorem C01_add_block_preserves : forall blocks s s' r res,
+  WF s -> reg_live s r -> (forall b, In b blocks -> blk_live s b) -> add_block r blocks s = (s', Ok res) -> WF s'.
+Proof. exact add_block_WF. Qed.
+Print Assumptions C01_add_block_preserves.
+
+Theorem C01_insert_block_before_preserves : forall blocks s s' r target res,
+  WF s -> reg_live s r -> blk_live s target -> (forall b, In b blocks -> blk_live s b) ->
+  insert_block_before r blocks target s = (s', Ok res) -> WF s'.
+Proof. exact insert_block_before_WF. Qed.
+Print Assumptions C01_insert_block_before_preserves.
+
+Theorem C01_insert_block_after_preserves : forall blocks s s' r target res,
+  WF s -> reg_live s r -> blk_live s target ->
+  (forall tr r', PM.find target (s_blocks s) = Some tr -> b_parent tr = Some r' -> reg_live s r') ->
+  (forall b, In b blocks -> blk_live s b) ->
+  insert_block_after r blocks target s = (s', Ok res) -> WF s'.
+Proof. exact insert_block_after_WF. Qed.
+Print Assumptions C01_insert_block_after_preserves.
+
+Theorem C01_insert_block_preserves : forall blocks s s' r index res,
+  WF s -> reg_live s r -> (forall b, In b blocks -> blk_live s b) -> insert_block r blocks index s = (s', Ok res) -> WF s'.
+Proof. exact insert_block_WF. Qed.
+Print Assumptions C01_insert_block_preserves.
+
+Theorem C01_rw_insert_block_preserves : forall blocks s s' r ib res,
+  WF s -> reg_live s r -> (forall b, In b blocks -> blk_live s b) -> (forall t, ib = Some t -> blk_live s t) ->
+  rw_insert_block blocks r ib s = (s', Ok res) -> WF s'.
+Proof. exact rw_insert_block_WF. Qed.
+Print Assumptions C01_rw_insert_block_preserves.
+
+Theorem C01_insert_arg_preserves : forall s s' b index v,
+  WF s -> blk_live s b -> insert_arg b index s = (s', Ok v) -> WF s'.
+Proof. exact insert_arg_WF. Qed.
+Print Assumptions C01_insert_arg_preserves.
+
+(* erasing an argument that has already been erased removes a different argument: val_live is needed *)
+Theorem C01_erase_arg_preserves : forall s s' b arg safe r,
+  WF s -> blk_live s b -> val_live s arg -> erase_arg b arg safe s = (s', Ok r) -> WF s'.
+Proof. exact erase_arg_WF. Qed.
+Print Assumptions C01_erase_arg_preserves.
+
+Theorem C01_pr_erase_block_argument_preserves : forall s s' arg safe r,
+  WF s -> val_live s arg ->
+  (forall vr b i, PM.find arg (s_values s) = Some vr -> v_kind vr = KArg b i -> blk_live s b) ->
+  pr_erase_block_argument arg safe s = (s', Ok r) -> WF s'.
+Proof. exact pr_erase_block_argument_WF. Qed.
+Print Assumptions C01_pr_erase_block_argument_preserves.
 
 (* every proved call constructor, as a step of the API machine *)
 Theorem C01_step_preserves : forall s c p,
